@@ -158,7 +158,7 @@ def do(op: dict) -> str:
     if o == "new":
         p = PROBLEMS[op["id"]]
         kind = op["solver"]
-        kw = dict(gamma=float(Fraction(op["gamma"])), epsilon=float(Fraction(op["eps"])), max_batch_size=op["maxbs"], verbose=0)
+        kw = dict(gamma=float(Fraction(op["gamma"])), epsilon=float(Fraction(op["eps"])), max_batch_size=op["maxbs"], verbose=1 if kind == "pi" else 0)
         if kind in ("vi", "pi", "semi"):
             kw["convergence_test"] = op.get("test", "span")
         if kind == "periodic":
@@ -355,8 +355,23 @@ def do(op: dict) -> str:
             if m.startswith("Checkpoint ") and " for iteration " in m:
                 saves.append(int(m.rsplit(" ", 1)[1]))
         extra = ""
+        import re as _re
+        meas = [m for m in LOG if _re.match(r"Iteration \d+: [a-z_ ]+: ", m)]
+        if meas and kind != "pi":
+            mm = _re.match(r"Iteration \d+: [a-z_ ]+: ([-0-9.einf]+)", meas[-1])
+            if mm:
+                extra += f" lastmeasure={mm.group(1)} fmt={sv.convergence_format}"
+        if kind == "pi":
+            # number of evaluation sweeps of the last policy-iteration step (messages between the last two 'Iteration k: Policy updated' lines)
+            cnt, last = 0, 0
+            for m in LOG:
+                if m.startswith("Policy evaluation iteration"):
+                    cnt += 1
+                elif m.startswith("Iteration ") and "Policy updated" in m:
+                    last, cnt = cnt, 0
+            extra += f" lastevaln={last}"
         if kind == "semi" and hasattr(sv, "_verif_permutations"):
-            extra = " perms=" + ";".join("_" if q is None else ",".join(str(int(x)) for x in q) for q in sv._verif_permutations[np0:])
+            extra += " perms=" + ";".join("_" if q is None else ",".join(str(int(x)) for x in q) for q in sv._verif_permutations[np0:])
         return state_line(kind, sv, conv, int(sv.iteration) - it0, saves) + extra
     raise ValueError(f"unknown op {o}")
 
